@@ -143,6 +143,54 @@ def serialized_atn(tree):
     raise SystemExit("serializedATN() not found")
 
 
+def code_digest(path):
+    """sha256 of the AST of a Python file without docstrings and comments (layout-insensitive)"""
+    import hashlib
+    tree = ast.parse(path.read_text(encoding="utf-8"))
+    for node in ast.walk(tree):
+        body = getattr(node, "body", None)
+        if isinstance(body, list) and body and isinstance(body[0], ast.Expr) \
+                and isinstance(getattr(body[0], "value", None), ast.Constant) and isinstance(body[0].value.value, str):
+            node.body = body[1:] or [ast.Pass()]
+    return hashlib.sha256(ast.dump(tree, include_attributes=False).encode()).hexdigest()
+
+
+def dispatch_table(tree):
+    """[(context class, RULE_ constant, listener method of enterRule, listener method of exitRule)] of CMakeParser"""
+    out = []
+    for node in ast.walk(tree):
+        if isinstance(node, ast.ClassDef) and node.name.endswith("Context"):
+            rule = enter = leave = None
+            for st in node.body:
+                if isinstance(st, ast.FunctionDef) and st.name == "getRuleIndex":
+                    r = [n for n in ast.walk(st) if isinstance(n, ast.Return)]
+                    if len(r) == 1 and isinstance(r[0].value, ast.Attribute):
+                        rule = r[0].value.attr
+                if isinstance(st, ast.FunctionDef) and st.name in ("enterRule", "exitRule"):
+                    calls = [n.func.attr for n in ast.walk(st) if isinstance(n, ast.Call) and isinstance(n.func, ast.Attribute)
+                             and isinstance(n.func.value, ast.Name) and n.func.value.id == "listener"]
+                    if len(calls) != 1:
+                        raise SystemExit(f"CMakeParser.{node.name}.{st.name}: expected exactly one listener call, found {calls}")
+                    if st.name == "enterRule":
+                        enter = calls[0]
+                    else:
+                        leave = calls[0]
+            if rule is None or enter is None or leave is None:
+                raise SystemExit(f"CMakeParser.{node.name}: getRuleIndex / enterRule / exitRule not of the generated shape")
+            out.append((node.name, rule, enter, leave))
+    return out
+
+
+def listener_overrides(path, cls):
+    """names of the enter*/exit* methods a listener class defines itself, in source order"""
+    tree = ast.parse(path.read_text(encoding="utf-8"))
+    for node in tree.body:
+        if isinstance(node, ast.ClassDef) and node.name == cls:
+            return [st.name for st in node.body if isinstance(st, ast.FunctionDef)
+                    and (st.name.startswith("enter") or st.name.startswith("exit"))]
+    raise SystemExit(f"class {cls} not found in {path}")
+
+
 def nlist(xs, per=24):
     rows = ["; ".join(str(x) for x in xs[i:i + per]) for i in range(0, len(xs), per)]
     return "[" + ";\n   ".join(rows) + "]%N"
@@ -170,13 +218,24 @@ def main():
            "Definition lexer_atn : list N :=\n  " + nlist(serialized_atn(lex)) + ".", "",
            "(* the generated parser *)",
            "Definition parser_rule_names : list str := " + clist(class_list(par, "CMakeParser", "ruleNames"), cstr) + ".",
-           "Definition parser_atn : list N :=\n  " + nlist(serialized_atn(par)) + ".", ""]
+           "Definition parser_atn : list N :=\n  " + nlist(serialized_atn(par)) + ".", "",
+           "(* which listener method each parse-tree context class calls on entry and on exit *)",
+           "Definition parser_dispatch : list (str * str * str * str) :=\n  ["
+           + ";\n   ".join(f"({cstr(a)}, {cstr(b)}, {cstr(c)}, {cstr(d)})" for a, b, c, d in dispatch_table(par)) + "].", "",
+           "(* the listener methods DocumentationAggregator overrides (every other callback is the empty default) *)",
+           "Definition aggregator_listener_methods : list str := "
+           + clist(listener_overrides(repo / "src" / "cminx" / "aggregator.py", "DocumentationAggregator"), cstr) + ".", "",
+           "(* sha256 of the docstring-free AST of the generated / hand-written modules of cminx.parser *)",
+           "Definition parser_package_digests : list (str * str) :=\n  ["
+           + ";\n   ".join(f"({cstr(n)}, {cstr(code_digest(pdir / n))})"
+                           for n in ("CMakeLexer.py", "CMakeParser.py", "CMakeListener.py", "__init__.py")) + "].", ""]
     text = "\n".join(out) + "\n"
     if len(sys.argv) > 3 and sys.argv[3] == "--baseline":
         # the frozen copy the pins compare against (Proofs/GrammarBaseline.v, committed; refreshed by
         # hand only after the model's lexer/parser have been re-validated against a changed grammar)
         for name in ("g4_rules", "lexer_rule_names", "lexer_symbolic_names", "lexer_literal_names", "lexer_atn",
-                     "parser_rule_names", "parser_atn"):
+                     "parser_rule_names", "parser_atn", "parser_dispatch", "aggregator_listener_methods",
+                     "parser_package_digests"):
             text = text.replace(f"Definition {name} ", f"Definition base_{name} ")
         text = text.replace("GENERATED by translators/grammar2coq.py", "FROZEN COPY written by translators/grammar2coq.py --baseline")
         text = text.replace(" -- do not edit; regenerated on every run", " at the time the model's lexer and parser were validated")
